@@ -239,7 +239,7 @@ func Resolve(s Sel, v val.V) (val.V, State) {
 // ---------- generators ----------
 
 var fieldNames = []string{"a", "b", "c", "aa", "x", "foo", "é", "A", "_u", "key-1"}
-var quotedNames = []string{"a", "b", "with space", "d.e", "é", "", "key-1", "x", "0", "[]", "a?b", "<k&>", "k\u2028", " k", "k\t", "k\x00", "~"}
+var quotedNames = []string{"a", "b", "with space", "d.e", "é", "", "key-1", "x", "0", "[]", "a?b", "<k&>", "k\u2028", " k", "k\t", "k\x00", "~", "'tis", "users'", "'q'", "''", "'", "a'b"}
 
 // GenCfg biases segment generation.
 type GenCfg struct {
